@@ -138,7 +138,7 @@ def cases(draw):
     if draw(st.sampled_from([False] * 5 + [True])):
         # the same instants written in another zone; times of day chosen so that the local and the UTC calendar day agree
         tz = draw(st.sampled_from(['America/New_York', 'Asia/Tokyo', 'Europe/London']))
-        lo, hi = {'America/New_York': (5, 18), 'Asia/Tokyo': (10, 23), 'Europe/London': (2, 22)}[tz]
+        lo, hi = {'America/New_York': (5, 18), 'Asia/Tokyo': (10, 23), 'Europe/London': (4, 22)}[tz]       # (never an hour a clock change can make ambiguous or skip)
         h0 = draw(st.integers(lo, hi))
         h1 = draw(st.integers(h0, hi))
         case['start'] = start[:3] + [h0, draw(st.sampled_from([0, 30])), 0]
